@@ -91,6 +91,8 @@ METHODS = (
     [("SI", m) for m in ["__new__", "__init__", "displayvalue", "si", "unit", "sisig", "as_quantity", "_val",
                          "__neg__", "__abs__", "__pos__", "__str__", "siunit", "str_to_sisig"]])
 
+INTERFACE = set(METHODS)       # any other method of the two classes, and any module-level function, is a private helper
+
 # kinds of values: V a Python object (gval); F a number; S a str; B a bool; L a list of ints; Z an int;
 # T a text (pieces); OS the optional unit argument; PT a class (pytype); CLS a quantity class (nat);
 # GC / GS / GI an entry of a generated table (class / str / int, or something else);
@@ -379,10 +381,11 @@ class Ctx:
         self.rets = []
         self.loop_k = None
         self.is_init = m.name == "__init__"
+        self.inline = False          # the body of a private helper translated at its call site
 
     def fresh(self, stem="t"):
         self.n += 1
-        return f"{stem}{self.n}_"
+        return f"{stem}{self.n}'"            # a prime: never the image `name_` of a Python name
 
 
 class Translator:
@@ -399,6 +402,8 @@ class Translator:
         self.records = []           # evidence
         self.ctx = None
         self.siunits = None
+        self.module_funcs = {}      # module-level functions (private helpers are translated at their call sites)
+        self.inline_stack = []
         self.module_checks()
 
     def fail(self, node, what):
@@ -425,8 +430,12 @@ class Translator:
                 self.cls_nodes[st.name] = st
             elif isinstance(st, (ast.FunctionDef, ast.AsyncFunctionDef)):
                 if st.name in ("SI", "Quantity", "Dimensionless", "float", "int", "str", "type", "isinstance", "issubclass",
-                               "abs", "len", "list", "map", "range"):
+                               "abs", "len", "list", "map", "range", "super", "re"):
                     self.fail(st, f"module-level function rebinds `{st.name}`")
+                if isinstance(st, ast.FunctionDef) and not st.decorator_list:
+                    if st.name in self.module_funcs:
+                        self.fail(st, f"module-level function {st.name} defined twice")
+                    self.module_funcs[st.name] = Method("<module>", st.name, st, "staticmethod")
             elif isinstance(st, (ast.Assign, ast.AnnAssign, ast.AugAssign)):
                 tg = st.targets if isinstance(st, ast.Assign) else [st.target]
                 for t in tg:
@@ -658,10 +667,13 @@ class Translator:
                 self.fail(st, "return inside a loop")
             if self.ctx.is_init:
                 self.fail(st, "return inside __init__")
-            if st.value is None:
-                self.fail(st, "return without a value")
+            if st.value is None or (isinstance(st.value, ast.Constant) and st.value.value is None):
+                if not self.ctx.inline:
+                    self.fail(st, "return without a value")
+                self.ctx.rets.append(("U", None))
+                return "Val tt"
             e = self.expr(st.value, env)
-            if e.kind not in GTYPE or e.kind == "U":
+            if e.kind not in GTYPE or (e.kind == "U" and not self.ctx.inline):
                 self.fail(st, f"return of a value of kind {e.kind}")
             self.ctx.rets.append((e.kind, e.static))
             return e.code if e.raises else f"Val {paren(e.code)}"
@@ -677,6 +689,12 @@ class Translator:
             return self.ctx.loop_k(env)
         if isinstance(st, ast.Pass):
             return cont(env)
+        if isinstance(st, ast.Expr) and isinstance(st.value, ast.Call):
+            # a call for its effects (here: the exceptions it may raise); the value is dropped
+            e = self.expr(st.value, env)
+            if e.kind not in GTYPE:
+                self.fail(st, f"call statement of kind {e.kind}")
+            return f"do _ <- {rp(e.code)};\n{cont(env)}" if e.raises else cont(env)
         if isinstance(st, (ast.Assign, ast.AnnAssign, ast.AugAssign)):
             return self.assign(st, env, cont)
         if isinstance(st, ast.If):
@@ -724,8 +742,16 @@ class Translator:
             if any(f != "" or spec or conv for f, spec, conv in fields) or len(fields) != len(n.args):
                 self.fail(n, "str.format with numbered / named / formatted fields or a different number of arguments")
             vals = list(n.args)
+        if vals is None and isinstance(n, ast.BinOp) and isinstance(n.op, ast.Mod) and isinstance(n.left, ast.Constant) \
+                and isinstance(n.left.value, str):
+            import re as _re
+            specs = _re.findall(r"%(?:\([^)]*\))?[-#0 +]*(?:\*|\d+)?(?:\.(?:\*|\d+))?[hlL]?(.)", n.left.value)
+            specs = [c for c in specs if c != "%"]
+            vals = list(n.right.elts) if isinstance(n.right, ast.Tuple) else [n.right]
+            if any(c not in "sr" for c in specs) or len(specs) != len(vals) or "%(" in n.left.value:
+                self.fail(n, "%-formatting other than %s / %r with one value per field")
         if vals is None:
-            self.fail(n, "exception message that is neither a literal, an f-string nor '...'.format(...)")
+            self.fail(n, "exception message that is neither a literal, an f-string, '...'.format(...) nor '...' % (...)")
         out = []
         for v in vals:
             if isinstance(v, ast.Attribute) and v.attr == "__name__" and isinstance(v.value, ast.Call) \
@@ -828,6 +854,20 @@ class Translator:
     def has_jump(self, stmts) -> bool:
         return any(isinstance(n, (ast.Return, ast.Continue, ast.Break)) for st in stmts for n in ast.walk(st))
 
+    def none_test(self, t, env):
+        """`x == None`, `x is None`, `x != None`, `x is not None`, `not (..)` of these, on the optional argument
+        -> (name, its E, True when the test holds for None)"""
+        neg = False
+        while isinstance(t, ast.UnaryOp) and isinstance(t.op, ast.Not):
+            neg, t = not neg, t.operand
+        if isinstance(t, ast.Compare) and len(t.ops) == 1 and isinstance(t.ops[0], (ast.Eq, ast.Is, ast.NotEq, ast.IsNot)) \
+                and isinstance(t.left, ast.Name) and isinstance(t.comparators[0], ast.Constant) and t.comparators[0].value is None:
+            o = env.get(t.left.id)
+            if o is None or o.kind != "OS":
+                self.fail(t, f"`{t.left.id} == None` on something else than the optional unit argument")
+            return t.left.id, o, isinstance(t.ops[0], (ast.Eq, ast.Is)) != neg
+        return None
+
     def if_stmt(self, st, env, rest, cont) -> str:
         bt, et = self.terminates(st.body), self.terminates(st.orelse)
         if bt and et and rest:
@@ -835,29 +875,40 @@ class Translator:
         t = st.test
         narrow = None
         # `unit == None` on the optional constructor argument: a match that narrows it to a str
-        if isinstance(t, ast.Compare) and len(t.ops) == 1 and isinstance(t.ops[0], (ast.Eq, ast.Is)) \
+        swap = False
+        if isinstance(t, ast.UnaryOp) and isinstance(t.op, ast.Not) and isinstance(t.operand, ast.Compare):
+            inner = t.operand
+            if len(inner.ops) == 1 and isinstance(inner.left, ast.Name) and isinstance(inner.comparators[0], ast.Constant) \
+                    and inner.comparators[0].value is None and isinstance(inner.ops[0], (ast.Eq, ast.Is, ast.NotEq, ast.IsNot)):
+                flip = {ast.Eq: ast.NotEq, ast.Is: ast.IsNot, ast.NotEq: ast.Eq, ast.IsNot: ast.Is}[type(inner.ops[0])]
+                t = ast.copy_location(ast.Compare(left=inner.left, ops=[flip()], comparators=inner.comparators), t)
+        if isinstance(t, ast.Compare) and len(t.ops) == 1 and isinstance(t.ops[0], (ast.Eq, ast.Is, ast.NotEq, ast.IsNot)) \
                 and isinstance(t.left, ast.Name) and isinstance(t.comparators[0], ast.Constant) and t.comparators[0].value is None:
             o = env.get(t.left.id)
             if o is None or o.kind != "OS":
                 self.fail(t, f"`{t.left.id} == None` on something else than the optional unit argument")
             narrow = (t.left.id, o)
+            swap = isinstance(t.ops[0], (ast.NotEq, ast.IsNot))
             c = None
         else:
-            c = self.expr(t, env)
-            if c.kind != "B":
-                self.fail(t, f"test of kind {c.kind} (only bool-valued tests)")
+            c = self.truth(self.expr(t, env), t)
 
-        def env_then():
-            return dict(env)
-
-        def env_else():
+        def narrowed(yes):
             e = dict(env)
-            if narrow:
+            if narrow and yes:
                 e[narrow[0]] = E("S", ident(narrow[0]))
             return e
 
+        def env_then():
+            return narrowed(swap)
+
+        def env_else():
+            return narrowed(not swap)
+
         def render(a, b):
             if narrow:
+                if swap:
+                    a, b = b, a
                 return f"match {narrow[1].code} with\n| None =>\n{ind(a, 4)}\n| Some {ident(narrow[0])} =>\n{ind(b, 4)}\nend"
             if c.raises:
                 tn = self.ctx.fresh()
@@ -884,7 +935,7 @@ class Translator:
         self.ctx.n = n0
         del self.ctx.rets[nrets:]
         names = []
-        for nm in self.assigned_names(st.body + st.orelse):
+        for nm in sorted(self.assigned_names(st.body + st.orelse)):
             if all(nm in e and not nm.startswith("@") for e in ends) and len({e[nm].kind for e in ends}) == 1 \
                     and ends[0][nm].kind in GTYPE:
                 if narrow and nm == narrow[0]:
@@ -913,7 +964,7 @@ class Translator:
             return f"do _ <- ({code});\n{after}"
         if len(names) == 1:
             return f"do {tup} <- ({code});\n{after}"
-        return f"do st_ <- ({code});\nlet '{tup} := st_ in\n{after}"
+        return f"do st' <- ({code});\nlet '{tup} := st' in\n{after}"
 
     def assigned_names(self, stmts):
         out = []
@@ -937,7 +988,8 @@ class Translator:
         return out
 
     def loop_state(self, st, env, extra_local=()):
-        names = [n for n in self.assigned_names(st.body) if n in env and n not in extra_local]
+        # (in alphabetical order: the shape of the loop state does not depend on the order of the statements)
+        names = sorted(n for n in self.assigned_names(st.body) if n in env and n not in extra_local)
         if st.orelse:
             self.fail(st, "else clause of a loop")
         if not names:
@@ -997,17 +1049,58 @@ class Translator:
         env2 = dict(env)
         for n in names:
             env2[n] = E(env[n].kind, ident(n), False, "fresh" if env[n].static == "fresh" else None)
-        pat = f"let '{tup} := st_ in\n" if len(names) > 1 else ""
-        stn = "st_" if len(names) > 1 else tup
+        pat = f"let '{tup} := st' in\n" if len(names) > 1 else ""
+        stn = "st'" if len(names) > 1 else tup
         return (f"do {stn} <- py_for {lst} (fun ({ident(x)} : {GTYPE[ek]}) ({stn} : {ty}) =>\n{ind(pat + body, 4)}) {tup};\n"
                 f"{pat}{cont(env2)}")
 
+    def counter_while(self, st, env):
+        """`while i < b: body; i += 1` where body neither assigns i nor contains continue / break, and i holds an int
+        known at this point: the loop `for i in range(<i now>, b)` followed by i = max(<i now>, b)"""
+        t = st.test
+        if not (isinstance(t, ast.Compare) and len(t.ops) == 1 and isinstance(t.ops[0], ast.Lt) and isinstance(t.left, ast.Name)
+                and st.body and not st.orelse):
+            return None
+        i = t.left.id
+        last = st.body[-1]
+        if not (isinstance(last, ast.AugAssign) and isinstance(last.op, ast.Add) and isinstance(last.target, ast.Name)
+                and last.target.id == i and isinstance(last.value, ast.Constant) and last.value.value == 1 and type(last.value.value) is int):
+            return None
+        body = st.body[:-1]
+        if i in self.assigned_names(body) or self.has_jump(body) or not body:
+            return None
+        if any(isinstance(n, ast.Name) and n.id == i for n in ast.walk(t.comparators[0])):
+            return None
+        if set(self.assigned_names(body)) & {n.id for n in ast.walk(t.comparators[0]) if isinstance(n, ast.Name)}:
+            return None                    # the bound must not change inside the loop
+        o = env.get(i)
+        if o is None or o.kind != "Z":
+            return None
+        return i, body, t.comparators[0]
+
     def while_stmt(self, st, env, cont) -> str:
+        cw = self.counter_while(st, env)
+        if cw is not None:
+            i, body, bound = cw
+            lo = ast.copy_location(ast.Name(id=i, ctx=ast.Load()), st)
+            loop = ast.copy_location(ast.For(target=ast.copy_location(ast.Name(id=i, ctx=ast.Store()), st),
+                                             iter=ast.copy_location(ast.Call(func=ast.copy_location(ast.Name(id="range", ctx=ast.Load()), st),
+                                                                             args=[lo, bound], keywords=[]), st),
+                                             body=body, orelse=[]), st)
+            b = self.expr(bound, env)
+            if b.kind != "Z" or b.raises or "range" in env:
+                self.fail(st, "while loop over a counter with a bound that is not a plain int")
+
+            def after(e2):
+                e3 = dict(e2)
+                e3[i] = E("Z", ident(i))
+                return f"let {ident(i)} := Z.max {paren(env[i].code)} {paren(b.code)} in\n{cont(e3)}"
+            return self.for_stmt(loop, env, after)
         names, tup, ty = self.loop_state(st, env)
         saved = self.ctx.loop_k
         benv, yk = self.loop_body(st, env, names, tup)
         try:
-            c = self.expr(st.test, benv)
+            c = self.truth(self.expr(st.test, benv), st.test)
             if c.kind != "B" or c.raises:
                 self.fail(st.test, "while test that is not a plain bool expression")
             body = self.block(st.body, benv, yk)
@@ -1016,8 +1109,8 @@ class Translator:
         env2 = dict(env)
         for n in names:
             env2[n] = E(env[n].kind, ident(n), False, "fresh" if env[n].static == "fresh" else None)
-        pat = f"let '{tup} := st_ in\n" if len(names) > 1 else ""
-        stn = "st_" if len(names) > 1 else tup
+        pat = f"let '{tup} := st' in\n" if len(names) > 1 else ""
+        stn = "st'" if len(names) > 1 else tup
         return (f"do {stn} <- py_while {WHILE_FUEL} (fun ({stn} : {ty}) =>\n{ind(pat + c.code, 4)})\n"
                 f"  (fun ({stn} : {ty}) =>\n{ind(pat + body, 4)}) {tup};\n{pat}{cont(env2)}")
 
@@ -1057,11 +1150,38 @@ class Translator:
         if isinstance(n, ast.Name):
             if n.id in env and not n.id.startswith("@"):
                 e = env[n.id]
+                if e.kind == "FN":
+                    return e
                 if e.kind == "L" and e.static == "fresh":
                     # the list object is handed on (stored, passed, returned): from here on it may be shared
                     env[n.id] = E(e.kind, e.code, False, None)
                 return E(e.kind, e.code, False, e.static)
             self.fail(n, f"name `{n.id}` (not a parameter or a local assigned on every path)")
+        if isinstance(n, ast.IfExp):
+            nt = self.none_test(n.test, env)
+            if nt is not None:
+                name, o, is_none_then = nt
+                env_s = dict(env)
+                env_s[name] = E("S", ident(name))
+                a = self.expr(n.body, env if is_none_then else env_s)
+                b = self.expr(n.orelse, env_s if is_none_then else env)
+                if a.kind != b.kind or a.kind not in GTYPE:
+                    self.fail(n, f"conditional expression with branches of kinds {a.kind}, {b.kind}")
+                none_e, some_e = (a, b) if is_none_then else (b, a)
+                raises = a.raises or b.raises
+                cn = none_e.code if (none_e.raises or not raises) else f"Val {paren(none_e.code)}"
+                cs_ = some_e.code if (some_e.raises or not raises) else f"Val {paren(some_e.code)}"
+                static = a.static if a.static == b.static and a.static != "fresh" else None
+                return E(a.kind, f"match {o.code} with None => {cn} | Some {ident(name)} => {cs_} end", raises, static)
+            c, a, b = self.truth(self.expr(n.test, env), n.test), self.expr(n.body, env), self.expr(n.orelse, env)
+            if c.kind != "B" or a.kind != b.kind or a.kind not in GTYPE:
+                self.fail(n, f"conditional expression with a test of kind {c.kind} and branches of kinds {a.kind}, {b.kind}")
+            static = a.static if a.static == b.static and a.static != "fresh" else None
+            if not (a.raises or b.raises):
+                return self.lift([c], lambda cc: E(a.kind, f"if {cc[0]} then {paren(a.code)} else {paren(b.code)}", False, static))
+            ra = a.code if a.raises else f"Val {paren(a.code)}"
+            rb = b.code if b.raises else f"Val {paren(b.code)}"
+            return self.lift([c], lambda cc: E(a.kind, f"if {cc[0]} then ({ra}) else ({rb})", True, static))
         if isinstance(n, ast.List):
             if n.elts and all(isinstance(x, ast.Constant) and type(x.value) is int for x in n.elts):
                 return E("L", "[" + "; ".join(cz(x.value) for x in n.elts) + "]", False, "fresh")
@@ -1073,6 +1193,8 @@ class Translator:
         if isinstance(n, ast.UnaryOp):
             e = self.expr(n.operand, env)
             if isinstance(n.op, ast.Not):
+                if e.kind == "S":
+                    return self.lift([e], lambda c: E("B", f'String.eqb {c[0]} ""'))
                 if e.kind != "B":
                     self.fail(n, f"not of a value of kind {e.kind}")
                 return self.lift([e], lambda c: E("B", f"negb {c[0]}"))
@@ -1174,6 +1296,8 @@ class Translator:
 
     def method_call(self, cls, name, recv: E, args, at, env, is_self=False) -> E:
         """recv.name(args) where recv is statically an instance of cls (or, for a classmethod, a class)"""
+        if (cls, name) in self.methods and (cls, name) not in INTERFACE and (cls, name) not in EXTERNAL:
+            return self.inline_call(self.methods[(cls, name)], recv, args, at, env, is_self)
         m = self.want(cls, name, at)
         self.note_dep(m)
         if is_self:
@@ -1193,6 +1317,129 @@ class Translator:
         if recv.kind != "V":
             self.fail(at, f"method {name} called on a value of kind {recv.kind}")
         return self.lift([recv] + argv, lambda c: E(m.ret[0], " ".join([m.gname] + c), True, m.ret[1]))
+
+    def closed_lambda(self, lam, at):
+        a = lam.args
+        if a.defaults or a.vararg or a.kwarg or a.kwonlyargs or a.posonlyargs or a.kw_defaults:
+            self.fail(at, "lambda with defaults / *args / keyword-only parameters")
+        params = [x.arg for x in a.args]
+        free = {n.id for n in ast.walk(lam.body) if isinstance(n, ast.Name)} - set(params)
+        if free or len(set(params)) != len(params):
+            self.fail(at, f"lambda that refers to names of its surroundings ({sorted(free)}): only closed lambdas are passed on")
+        if any(isinstance(n, (ast.Lambda, ast.NamedExpr, ast.Yield, ast.YieldFrom, ast.Await)) for n in ast.walk(lam.body)):
+            self.fail(at, "lambda whose body contains a lambda / := / yield")
+        return params
+
+    def inline_call(self, m: Method, recv, args, at, env, is_self=False) -> E:
+        """a call of a private helper (a method of the class that is not part of the translated interface, or a
+        module-level function): its body is translated at the call site.  The arguments are evaluated first, in order,
+        and bound to fresh names; the parameters are bound to them; `return` inside the helper is the value of the call."""
+        key = (m.cls, m.name)
+        if key in self.inline_stack:
+            self.fail(at, f"recursive helper {m.cls}.{m.name}")
+        if len(self.inline_stack) > 8:
+            self.fail(at, "helpers nested more than 8 deep")
+        node = m.node
+        a = node.args
+        if a.posonlyargs or a.kwonlyargs or a.vararg or a.kwarg or a.kw_defaults:
+            self.fail(at, f"helper {m.cls}.{m.name} takes *args / **kwargs / keyword-only parameters")
+        if m.deco not in (None, "staticmethod"):
+            self.fail(at, f"helper {m.cls}.{m.name} is a {m.deco}")
+        if any(isinstance(n, (ast.Yield, ast.YieldFrom, ast.Await, ast.Global, ast.Nonlocal, ast.FunctionDef, ast.ClassDef,
+                              ast.Try, ast.With)) for st in node.body for n in ast.walk(st)):
+            self.fail(at, f"helper {m.cls}.{m.name} uses yield / global / try / with / a nested definition")
+        names = [x.arg for x in a.args]
+        env2 = {"@assigned": frozenset(INSTANCE_ATTRS.get(m.cls, ()))}
+        binds = []          # (fresh name, E) in evaluation order
+        if m.deco is None:
+            if not names or names[0] != "self":
+                self.fail(at, f"first parameter of {m.cls}.{m.name} is not `self`")
+            names = names[1:]
+            if recv is None or recv.kind != "V" or recv.static not in ("Q", "SI"):
+                self.fail(at, f"helper {m.cls}.{m.name} called on an object whose class is not known statically")
+            t = self.ctx.fresh("a")
+            binds.append((t, recv))
+            env2["self"] = E("V", t, False, recv.static)
+            if is_self:
+                env2["@assigned"] = env["@assigned"]
+        if len(args) > len(names):
+            self.fail(at, f"too many arguments for {m.cls}.{m.name}")
+        defaults = [None] * (len(names) - len(a.defaults)) + list(a.defaults)
+        for i, (pn, pd) in enumerate(zip(names, defaults)):
+            if pn in ("self", "cls") or pn.startswith("@"):
+                self.fail(at, f"parameter `{pn}` of helper {m.cls}.{m.name}")
+            if i < len(args):
+                arg = args[i]
+                if isinstance(arg, ast.Lambda):
+                    self.closed_lambda(arg, arg)
+                    env2[pn] = E("FN", arg)
+                    continue
+                e = self.expr(arg, env)
+                if e.kind == "FN":
+                    env2[pn] = e
+                    continue
+            else:
+                if not (isinstance(pd, ast.Constant) and type(pd.value) in (str, bool, int)):
+                    self.fail(at, f"helper {m.cls}.{m.name}: parameter `{pn}` left to a default that is not a str / bool / int literal")
+                e = self.expr(pd, {})
+            if e.kind not in GTYPE or e.kind == "U":
+                self.fail(at, f"argument of kind {e.kind} passed to helper {m.cls}.{m.name}")
+            t = self.ctx.fresh("a")
+            binds.append((t, e))
+            env2[pn] = E(e.kind, t, False, e.static if not (e.kind == "L" and e.static == "fresh") else None)
+        saved, saved_reads = self.ctx, set(m.reads)
+        sub = Ctx(m)
+        sub.n, sub.inline, sub.is_init = saved.n, True, False
+        self.ctx = sub
+        self.inline_stack.append(key)
+        try:
+            def k_end(e_):
+                sub.rets.append(("U", None))
+                return "Val tt"
+            body = self.block(list(node.body), env2, k_end)
+        finally:
+            self.inline_stack.pop()
+            self.ctx = saved
+            saved.n = sub.n
+        kinds = {k for k, _s in sub.rets}
+        if len(kinds) != 1:
+            self.fail(at, f"helper {m.cls}.{m.name} returns values of different kinds {sorted(kinds)}")
+        statics = {s_ for _k, s_ in sub.rets}
+        kind, static = kinds.pop(), (statics.pop() if len(statics) == 1 else None)
+        if is_self and m.cls in INSTANCE_ATTRS:
+            self.ctx.m.reads |= m.reads
+        for d in m.deps:
+            if d not in self.ctx.m.deps:
+                self.ctx.m.deps.append(d)
+        rec = self.source_record(m, f"inlined into {self.ctx.m.gname}")
+        if not any(r["what"] == rec["what"] and r["method"] == rec["method"] for r in self.records):
+            self.records.append(rec)
+        code = body
+        for t, e in reversed(binds):
+            code = f"do {t} <- {rp(e.code)};\n{code}" if e.raises else f"let {t} := {e.code} in\n{code}"
+        return E(kind, code, True, static)
+
+    def apply_lambda(self, lam, argv, at, env) -> E:
+        """(lambda x, y: body)(a, b): the body with the parameters bound to the (already evaluated) arguments"""
+        params = self.closed_lambda(lam, at)
+        if len(params) != len(argv):
+            self.fail(at, "lambda applied to a different number of arguments")
+        env2 = {"@assigned": env.get("@assigned", frozenset())}
+        binds = []
+        for pn, e in zip(params, argv):
+            if e.kind not in GTYPE or e.kind == "U":
+                self.fail(at, f"argument of kind {e.kind} passed to a lambda")
+            t = self.ctx.fresh("a")
+            binds.append((t, e))
+            env2[pn] = E(e.kind, t, False, None)
+        r = self.expr(lam.body, env2)
+        code = r.code if r.raises else f"Val {paren(r.code)}"
+        raises = r.raises or any(e.raises for _t, e in binds)
+        if not raises:
+            code = r.code
+        for t, e in reversed(binds):
+            code = f"do {t} <- {rp(e.code)};\n{code}" if e.raises else f"let {t} := {e.code} in\n{code}"
+        return E(r.kind, code, raises, r.static)
 
     def construct(self, target, args, at, env) -> E:
         """<class>(value[, unit]).  target: 'SI' | ('cls', E of kind CLS / PT)"""
@@ -1219,9 +1466,15 @@ class Translator:
         if any(isinstance(a, ast.Starred) for a in n.args):
             self.fail(n, "*args in a call")
         if isinstance(f, ast.Name) and f.id not in env:
+            if f.id in self.module_funcs:
+                return self.inline_call(self.module_funcs[f.id], None, n.args, n, env)
             return self.call_name(n, f.id, env)
+        if isinstance(f, ast.Lambda):
+            return self.apply_lambda(f, [self.expr(x, env) for x in n.args], n, env)
         if isinstance(f, ast.Name):
             e = env[f.id]
+            if e.kind == "FN":
+                return self.apply_lambda(e.code, [self.expr(x, env) for x in n.args], n, env)
             if e.kind in ("PT", "CLS"):
                 return self.construct(("cls", E(e.kind, e.code)), n.args, n, env)
             self.fail(n, f"call of `{f.id}` (kind {e.kind})")
@@ -1275,6 +1528,14 @@ class Translator:
             if e.kind == "CLS":
                 self.fail(n, "type() of a class")
             self.fail(n, f"type() of a value of kind {e.kind}")
+        if name == "isinstance" and len(args) == 2 and isinstance(args[1], ast.Tuple) and args[1].elts:
+            # isinstance(x, (A, B)) is isinstance(x, A) or isinstance(x, B)
+            parts = [self.call_name(ast.copy_location(ast.Call(func=n.func, args=[args[0], c2], keywords=[]), n), name, env)
+                     for c2 in args[1].elts]
+            if any(p.raises for p in parts[1:]):
+                self.fail(n, "isinstance with a tuple on an expression that may raise")
+            return E("B", " || ".join(paren(p.code) for p in parts), parts[0].raises) if not parts[0].raises else \
+                self.fail(n, "isinstance with a tuple on an expression that may raise")
         if name in ("isinstance", "issubclass"):
             if len(args) != 2 or not isinstance(args[1], ast.Name) or args[1].id in env:
                 self.fail(n, f"{name} with a second argument that is not a class name")
@@ -1288,13 +1549,19 @@ class Translator:
             if len(args) == 1 and isinstance(args[0], ast.Call) and isinstance(args[0].func, ast.Name) and args[0].func.id == "map" \
                     and "map" not in env and not args[0].keywords and len(args[0].args) == 3:
                 lam, a, b = args[0].args
-                if isinstance(lam, ast.Lambda) and not lam.args.defaults and len(lam.args.args) == 2 and not lam.args.vararg \
-                        and not lam.args.kwarg and not lam.args.kwonlyargs and isinstance(lam.body, ast.BinOp) \
-                        and isinstance(lam.body.op, (ast.Add, ast.Sub)) and isinstance(lam.body.left, ast.Name) \
-                        and isinstance(lam.body.right, ast.Name) \
-                        and [lam.body.left.id, lam.body.right.id] == [x.arg for x in lam.args.args] \
-                        and lam.body.left.id != lam.body.right.id:
-                    op = "Z.add" if isinstance(lam.body.op, ast.Add) else "Z.sub"
+                if isinstance(lam, ast.Name) and lam.id in env and env[lam.id].kind == "FN":
+                    lam = env[lam.id].code
+                if isinstance(lam, ast.Lambda) and len(self.closed_lambda(lam, n)) == 2:
+                    px, py = [x.arg for x in lam.args.args]
+                    if isinstance(lam.body, ast.BinOp) and isinstance(lam.body.op, (ast.Add, ast.Sub)) \
+                            and isinstance(lam.body.left, ast.Name) and isinstance(lam.body.right, ast.Name) \
+                            and [lam.body.left.id, lam.body.right.id] == [px, py]:
+                        op = "Z.add" if isinstance(lam.body.op, ast.Add) else "Z.sub"
+                    else:
+                        r = self.expr(lam.body, {px: E("Z", ident(px)), py: E("Z", ident(py)), "@assigned": frozenset()})
+                        if r.kind != "Z" or r.raises:
+                            self.fail(n, "map with a lambda that is not a plain int expression of its two parameters")
+                        op = f"(fun {ident(px)} {ident(py)} : Z => {r.code})"
                     ea, eb = self.expr(a, env), self.expr(b, env)
                     if ea.kind == "L" and eb.kind == "L":
                         return self.lift([ea, eb], lambda c: E("L", f"py_map2 {op} {c[0]} {c[1]}", False, "fresh"))
@@ -1430,16 +1697,37 @@ class Translator:
             return None
         return seen[0][0]
 
-    def boolop(self, n, env) -> E:
+    def number_test(self, n, env):
+        """the test `x is a float or an int` in one of its spellings -> (name, negated), else None:
+        type(x) == float or type(x) == int;  type(x) != float and type(x) != int;  type(x) [not] in (float, int)"""
         x = self.number_pair(n, env)
         if x is not None:
-            e = self.expr(ast.copy_location(ast.Name(id=x, ctx=ast.Load()), n), env)
+            return x, False
+        if isinstance(n, ast.BoolOp) and isinstance(n.op, ast.And) and len(n.values) == 2 and \
+                all(isinstance(v, ast.Compare) and len(v.ops) == 1 and isinstance(v.ops[0], ast.NotEq) for v in n.values):
+            flipped = ast.BoolOp(op=ast.Or(), values=[ast.Compare(left=v.left, ops=[ast.Eq()], comparators=v.comparators)
+                                                      for v in n.values])
+            x = self.number_pair(flipped, env)
+            if x is not None:
+                return x, True
+        if isinstance(n, ast.Compare) and len(n.ops) == 1 and isinstance(n.ops[0], (ast.In, ast.NotIn)) \
+                and self.is_type_call(n.left, env) and isinstance(n.left.args[0], ast.Name) \
+                and isinstance(n.comparators[0], (ast.Tuple, ast.List, ast.Set)) \
+                and all(isinstance(c, ast.Name) and c.id not in env for c in n.comparators[0].elts) \
+                and sorted(c.id for c in n.comparators[0].elts) == ["float", "int"]:
+            return n.left.args[0].id, isinstance(n.ops[0], ast.NotIn)
+        return None
+
+    def boolop(self, n, env) -> E:
+        nt = self.number_test(n, env)
+        if nt is not None:
+            e = self.expr(ast.copy_location(ast.Name(id=nt[0], ctx=ast.Load()), n), env)
             if e.kind != "V":
                 self.fail(n, f"type test on a value of kind {e.kind}")
-            return E("B", f"py_is_number {paren(e.code)}")
+            return E("B", f"negb (py_is_number {paren(e.code)})" if nt[1] else f"py_is_number {paren(e.code)}")
         vs = [self.expr(v, env) for v in n.values]
         if any(v.kind != "B" for v in vs):
-            self.fail(n, "and / or of values that are not bools")
+            self.fail(n, "and / or of values that are not bools")      # (a str operand would make the VALUE a str)
         is_or = isinstance(n.op, ast.Or)
         if not any(v.raises for v in vs):
             return E("B", (" || " if is_or else " && ").join(paren(v.code) for v in vs))
@@ -1459,9 +1747,67 @@ class Translator:
         return isinstance(n, ast.Call) and isinstance(n.func, ast.Name) and n.func.id == "type" and "type" not in env \
             and len(n.args) == 1 and not n.keywords
 
+    def str_test(self, n, env):
+        """normal forms: `len(s) > 0`, `len(s) != 0`, `len(s) >= 1`, `s != ''` are  negb (s =? "");  `len(s) == 0`,
+        `len(s) < 1`, `len(s) <= 0`, `s == ''` are  s =? "";  `s[:1] == 'c'` (one character) is  s.startswith('c')"""
+        if not (isinstance(n, ast.Compare) and len(n.ops) == 1):
+            return None
+        op, l, r = n.ops[0], n.left, n.comparators[0]
+
+        def is_len(x):
+            return isinstance(x, ast.Call) and isinstance(x.func, ast.Name) and x.func.id == "len" and "len" not in env \
+                and len(x.args) == 1 and not x.keywords
+
+        def const(x, v):
+            return isinstance(x, ast.Constant) and type(x.value) is type(v) and x.value == v
+        flip = {ast.Lt: ast.Gt, ast.Gt: ast.Lt, ast.LtE: ast.GtE, ast.GtE: ast.LtE, ast.Eq: ast.Eq, ast.NotEq: ast.NotEq}
+        if type(op) in flip and is_len(r) and not is_len(l):
+            op, l, r = flip[type(op)](), r, l
+        subj, empty = None, None
+        if is_len(l):
+            if (isinstance(op, ast.Gt) and const(r, 0)) or (isinstance(op, ast.NotEq) and const(r, 0)) or \
+                    (isinstance(op, ast.GtE) and const(r, 1)):
+                subj, empty = l.args[0], False
+            elif (isinstance(op, ast.Eq) and const(r, 0)) or (isinstance(op, ast.Lt) and const(r, 1)) or \
+                    (isinstance(op, ast.LtE) and const(r, 0)):
+                subj, empty = l.args[0], True
+        elif isinstance(op, (ast.Eq, ast.NotEq)) and (const(r, "") or const(l, "")):
+            subj, empty = (l if const(r, "") else r), isinstance(op, ast.Eq)
+        if subj is not None:
+            e = self.expr(subj, env)
+            if e.kind != "S":
+                return None
+            return self.lift([e], lambda c: E("B", f'String.eqb {c[0]} ""' if empty else f'negb (String.eqb {c[0]} "")'))
+        # s[:1] == 'c'
+        if isinstance(op, (ast.Eq, ast.NotEq)):
+            for a, b in ((l, r), (r, l)):
+                if isinstance(a, ast.Subscript) and isinstance(a.slice, ast.Slice) and a.slice.lower is None and a.slice.step is None \
+                        and const(a.slice.upper, 1) and isinstance(b, ast.Constant) and isinstance(b.value, str) and len(b.value) == 1:
+                    e = self.expr(a.value, env)
+                    if e.kind != "S":
+                        return None
+                    lit = self.expr(b, env)
+                    r_ = self.lift([e], lambda c: E("B", f"py_startswith {c[0]} {lit.code}"))
+                    return r_ if isinstance(op, ast.Eq) else self.lift([r_], lambda c: E("B", f"negb {c[0]}"))
+        return None
+
+    def truth(self, e: E, at) -> E:
+        """the truth value of an expression used as a test: a bool, or a str (true when not empty)"""
+        if e.kind == "B":
+            return e
+        if e.kind == "S":
+            return self.lift([e], lambda c: E("B", f'negb (String.eqb {c[0]} "")'))
+        self.fail(at, f"test of kind {e.kind} (only bool-valued tests and the emptiness of a str)")
+
     def compare(self, n, env) -> E:
         if len(n.ops) != 1:
             self.fail(n, "chained comparison")
+        nt = self.number_test(n, env)
+        if nt is not None:
+            return self.boolop(n, env)
+        stt = self.str_test(n, env)
+        if stt is not None:
+            return stt
         op, l, r = n.ops[0], n.left, n.comparators[0]
         neg = isinstance(op, (ast.NotEq, ast.NotIn))
 
